@@ -9,7 +9,8 @@ Open Scope N_scope.
 Inductive skind :=
 | KSet | KUse (db : str) | KKill | KShow | KDescribeTable | KDescribeSelect
 | KBegin | KCommit | KRollback
-| KSelect (fromless : bool)       (* exp.Select; fromless: no FROM / JOIN at its top level *)
+| KSelect (fromless : bool)       (* exp.Select; fromless: no FROM / JOIN at its top level and no table in any subquery -
+                                     a static query: it reads nothing *)
 | KSetOp                          (* UNION / EXCEPT / INTERSECT *)
 | KOther.                         (* DML, DDL, anything else, commands sqlglot does not understand *)
 Record stmt := mk_stmt { kind : skind; dbs : list (option str) }.   (* dbs: the db part of every table find_tables reports *)
